@@ -5,6 +5,7 @@
 -/
 import DateutilVerif.Proofs.RRuleBridgeCal
 import DateutilVerif.Proofs.RRuleRange
+import DateutilVerif.Proofs.RRuleSetpos
 
 namespace RRule
 open Cal
@@ -28,7 +29,10 @@ theorem ym_results (ya : YMArgs a) (h : construct a = .ok r) (k : Nat) (st : Sta
   have hs := ym_simple ya h
   obtain ⟨bh, bm, bs, hr⟩ := ym_rule ya h
   have hfreq : r.freq = a.freq := by rw [hr]
-  have hsp : r.bysetpos = none := by rw [hr]
+  have hsp := construct_bysetpos a r h
+  have htsok : TsOk st.timeset := by
+    have := construct_timeset_ok a r h (by rcases ya.freq with h | h <;> omega)
+    rw [hr] at this; rw [hg.timeset]; exact this
   have hyo := hg.facts.yearordinal
   have hyl := hg.facts.yearlen
   have hy1 := hg.facts.year_lo
@@ -45,7 +49,8 @@ theorem ym_results (ya : YMArgs a) (h : construct a = .ok r) (k : Nat) (st : Sta
   rcases ya.freq with f0 | f1
   · -- YEARLY
     have hd : dayset r st.info st.cur = .ok (intRange 0 st.info.yearlen) := dayset_yearly st.cur (by rw [hfreq, f0])
-    obtain ⟨fl, hres⟩ := periodResults_range hs st hg.facts hg.nwd hsp 0 st.info.yearlen hd (by omega) (by omega)
+    obtain ⟨fl, hres⟩ := periodResults_range_sp hs st hg.facts hg.nwd (by rw [hsp.1]; exact hsp.2) htsok
+      0 st.info.yearlen hd (by omega) (by omega)
       (by rw [hyo]; omega) (by rw [hyo, hyl]; exact hend)
     have hspan : Spec.RRule.periodSpan a (k * a.interval) =
         (st.info.yearordinal + 0, st.info.yearordinal + st.info.yearlen, none, none, none) := by
@@ -54,10 +59,10 @@ theorem ym_results (ya : YMArgs a) (h : construct a = .ok r) (k : Nat) (st : Sta
       dsimp only
       rw [← hg.yearly f0, hyo, hyl, toOrdinal_next_year]; simp
     refine ⟨⟨fl, ?_⟩, ?_⟩
-    · rw [hres, hg.timeset, sel_span a ya.bysetpos k _ _ hspan, hbridge _ _ (by rw [hyo]; omega)]
+    · rw [hres, hg.timeset, sel_span_sp a k _ _ hspan, hbridge _ _ (by rw [hyo]; omega), hsp.1]
     · intro x hx
-      rw [sel_span a ya.bysetpos k _ _ hspan] at hx
-      have := sel_bounds _ _ _ _ x hx
+      rw [sel_span_sp a k _ _ hspan] at hx
+      have := sel_bounds _ _ _ _ x (applySetpos_subset _ _ x hx)
       rw [hyo, hyl] at this; omega
   · -- MONTHLY
     have hm := hg.month
@@ -67,7 +72,8 @@ theorem ym_results (ya : YMArgs a) (h : construct a = .ok r) (k : Nat) (st : Sta
     rw [daysBeforeMonth_1] at hdbm0
     have hdbm1 := daysBeforeMonth_mono st.cur.year (st.cur.month + 1) 13 (by omega) (by omega) (by omega)
     rw [daysBeforeMonth_13, daysBeforeMonth_succ _ _ hm.1 hm.2] at hdbm1
-    obtain ⟨fl, hres⟩ := periodResults_range hs st hg.facts hg.nwd hsp _ _ hd hdbm0 (by rw [hyl]; omega)
+    obtain ⟨fl, hres⟩ := periodResults_range_sp hs st hg.facts hg.nwd (by rw [hsp.1]; exact hsp.2) htsok
+      _ _ hd hdbm0 (by rw [hyl]; omega)
       (by rw [hyo]; omega) (by rw [hyo]; omega)
     have hspan : Spec.RRule.periodSpan a (k * a.interval) =
         (st.info.yearordinal + daysBeforeMonth st.cur.year st.cur.month,
@@ -83,10 +89,10 @@ theorem ym_results (ya : YMArgs a) (h : construct a = .ok r) (k : Nat) (st : Sta
       simp only [Prod.mk.injEq, and_true, true_and]
       omega
     refine ⟨⟨fl, ?_⟩, ?_⟩
-    · rw [hres, hg.timeset, sel_span a ya.bysetpos k _ _ hspan, hbridge _ _ (by rw [hyo]; omega)]
+    · rw [hres, hg.timeset, sel_span_sp a k _ _ hspan, hbridge _ _ (by rw [hyo]; omega), hsp.1]
     · intro x hx
-      rw [sel_span a ya.bysetpos k _ _ hspan] at hx
-      have := sel_bounds _ _ _ _ x hx
+      rw [sel_span_sp a k _ _ hspan] at hx
+      have := sel_bounds _ _ _ _ x (applySetpos_subset _ _ x hx)
       rw [hyo] at this; omega
 
 /-- `advance` reaches period `k+1` (YEARLY / MONTHLY) while the year stays ≤ 9999 -/
